@@ -34,6 +34,8 @@ import (
 	hbtd "github.com/go-text/typesetting-utils/harfbuzz"
 	ottd "github.com/go-text/typesetting-utils/opentype"
 	"github.com/go-text/typesetting/font"
+	ot "github.com/go-text/typesetting/font/opentype"
+	"github.com/go-text/typesetting/font/opentype/tables"
 	"github.com/go-text/typesetting/harfbuzz"
 	"github.com/go-text/typesetting/language"
 )
@@ -50,6 +52,45 @@ type input struct {
 	Level    int      `json:"level"` // 0 MonotoneGraphemes, 1 MonotoneCharacters
 	// Cut < 0: every safe boundary at once (the upstream method); otherwise the text index of the single cut.
 	Cut int `json:"cut"`
+	// Coords: normalized variation coordinates (2.14) of the instance the face is set to; nil = default instance
+	Coords []int16 `json:"coords,omitempty"`
+}
+
+// instances returns up to three distinct non-default instances of a variable face, as normalized coordinates
+func instances(face *font.Face) [][]int16 {
+	var out [][]int16
+	seen := map[string]bool{}
+	for _, vs := range [][]font.Variation{
+		{{Tag: ot.MustNewTag("wght"), Value: 900}, {Tag: ot.MustNewTag("wdth"), Value: 125}},
+		{{Tag: ot.MustNewTag("wght"), Value: 100}, {Tag: ot.MustNewTag("wdth"), Value: 60}, {Tag: ot.MustNewTag("opsz"), Value: 8}},
+		{{Tag: ot.MustNewTag("wght"), Value: 650}, {Tag: ot.MustNewTag("slnt"), Value: -10}, {Tag: ot.MustNewTag("ital"), Value: 1}},
+	} {
+		face.SetVariations(vs)
+		var cs []int16
+		nz := false
+		for _, c := range face.Coords() {
+			cs = append(cs, int16(c))
+			nz = nz || c != 0
+		}
+		face.SetCoords(nil)
+		if k := fmt.Sprint(cs); nz && !seen[k] {
+			seen[k] = true
+			out = append(out, cs)
+		}
+	}
+	return out
+}
+
+func setInstance(f *harfbuzz.Font, coords []int16) {
+	if coords == nil {
+		f.Face().SetCoords(nil)
+		return
+	}
+	cs := make([]tables.Coord, len(coords))
+	for i, c := range coords {
+		cs[i] = tables.Coord(c)
+	}
+	f.Face().SetCoords(cs)
 }
 
 func (in input) uplus() string {
@@ -717,6 +758,8 @@ func evaluate(f *harfbuzz.Font, in input, doSingles bool) (o outcome) {
 		in2.Cut = cut
 		o.fails = append(o.fails, failure{kind, what, in2})
 	}
+	setInstance(f, in.Coords)
+	defer setInstance(f, nil)
 	c, err := newCtx(f, in)
 	if err != nil {
 		fail("harness", err.Error(), -1)
@@ -961,6 +1004,7 @@ func runFont(j job, tier string, corpus map[string][][]rune) (res fontResult) {
 		res.skipped = "font-unloadable"
 		return
 	}
+	insts := instances(face)
 	r := rand.New(rand.NewSource(j.seed))
 	type source struct {
 		script string
@@ -1042,6 +1086,10 @@ func runFont(j job, tier string, corpus map[string][][]rune) (res fontResult) {
 			}
 			for ci, cb := range combos {
 				in := input{Font: j.ref.id(), Text: text, Script: script, Dir: cb.dir, Features: cb.feats, Level: cb.level, Cut: -1}
+				if len(insts) > 0 && (ci+len(text))%2 == 0 { // variable font: half of the cases at a non-default instance
+					in.Coords = insts[(ci+len(text)/2)%len(insts)]
+					res.hist["instance=non-default"]++
+				}
 				// single cuts: always in the thorough tier; in the quick tier for the first combination and short texts
 				doSingles := tier != "quick" || ci == 0 || len(text) <= 8
 				o := evaluate(hf, in, doSingles)
